@@ -324,10 +324,174 @@ func smallScope() []Input {
 	return out
 }
 
+// ---- trees of by-value struct dependencies ----
+//
+// The generator discovers same-package dependencies while it renders a struct and generates them afterwards, depth
+// first.  Whether EVERY dependency gets its methods depends on the SHAPE of the graph and on field order: a struct with
+// two or three by-value struct fields, an earlier one of which has (or leads to a struct that has) two or three such
+// fields of its own, every type but the root untagged and reachable by exactly one route (a tree), so that a dependency
+// that is skipped is generated by nobody else and `in.F.DeepCopyInto undefined` breaks the build.  The random layered
+// graphs almost never have that shape (one or two structs per level, mostly tagged).
+
+type tshape struct{ kids []tshape }
+
+var (
+	tA  = tshape{}                           // a leaf struct: a slice and a map
+	tX2 = tshape{kids: []tshape{tA, tA}}     // fan-out 2
+	tX3 = tshape{kids: []tshape{tA, tA, tA}} // fan-out 3
+	tC  = tshape{kids: []tshape{tX2}}        // a chain link in front of a fan-out of 2
+)
+
+func (t tshape) size() int {
+	n := 1
+	for _, k := range t.kids {
+		n += k.size()
+	}
+	return n
+}
+
+// treeInput: the package of a shape.  Only the root is tagged (tagPct: chance that another node is tagged as well);
+// names are random so that the order of names is unrelated to the order of dependencies; the by-value fields keep the
+// order of the shape, leaf fields go to random positions in between.
+func treeInput(r *core.RNG, root tshape, seed uint64, tagPct int) Input {
+	b := &builder{r: r, used: map[string]bool{}}
+	var decls []Decl
+	var build func(t tshape, isRoot bool) string
+	build = func(t tshape, isRoot bool) string {
+		d := Decl{Name: b.name("T"), Kind: DStruct, Tag: isRoot || r.Chance(tagPct)}
+		var fields []Field
+		for i, k := range t.kids {
+			fields = append(fields, fn(fmt.Sprintf("K%d", i), build(k, false)))
+		}
+		var extra []Field
+		if len(t.kids) == 0 {
+			extra = append(extra, fsl("S", core.Pick(r, basics)), fm("M", core.Pick(r, mapKeys), core.Pick(r, basics)))
+		} else if r.Bool() {
+			extra = append(extra, b.leaf("L"))
+		}
+		for _, e := range extra {
+			at := r.Intn(len(fields) + 1)
+			fields = append(fields[:at], append([]Field{e}, fields[at:]...)...)
+		}
+		d.Fields = fields
+		decls = append(decls, d)
+		return d.Name
+	}
+	build(root, true)
+	for i := len(decls) - 1; i > 0; i-- { // source order is irrelevant to gengo, not to go/types
+		j := r.Intn(i + 1)
+		decls[i], decls[j] = decls[j], decls[i]
+	}
+	return Input{Seed: seed, Decls: decls}
+}
+
+func randomTree(r *core.RNG, depth int, budget *int) tshape {
+	*budget--
+	if depth == 0 {
+		return tA
+	}
+	var t tshape
+	n := 2 + r.Intn(2)
+	if r.Chance(15) {
+		n = 1
+	}
+	for i := 0; i < n && *budget > 0; i++ {
+		if r.Chance(35) {
+			*budget--
+			t.kids = append(t.kids, tA)
+		} else {
+			t.kids = append(t.kids, randomTree(r, depth-1, budget))
+		}
+	}
+	return t
+}
+
+func perms(ts []tshape) [][]tshape {
+	if len(ts) <= 1 {
+		return [][]tshape{append([]tshape(nil), ts...)}
+	}
+	var out [][]tshape
+	for i := range ts {
+		rest := append(append([]tshape(nil), ts[:i]...), ts[i+1:]...)
+		for _, p := range perms(rest) {
+			out = append(out, append([]tshape{ts[i]}, p...))
+		}
+	}
+	return out
+}
+
+func shapeKey(t tshape) string {
+	s := "("
+	for _, k := range t.kids {
+		s += shapeKey(k)
+	}
+	return s + ")"
+}
+
+// treeShapes: quick = the small shapes in EVERY order of the root's fields; thorough = every root of fan-out 2 over six
+// child shapes and of fan-out 3 over four, in every order (ordered tuples), plus depth 3.
+func treeShapes(tier string) []tshape {
+	var out []tshape
+	seen := map[string]bool{}
+	add := func(kids ...tshape) {
+		for _, p := range perms(kids) {
+			t := tshape{kids: p}
+			if k := shapeKey(t); !seen[k] {
+				seen[k] = true
+				out = append(out, t)
+			}
+		}
+	}
+	deepL := tshape{kids: []tshape{tX2, tA}} // fan-out 2 whose FIRST child fans out again
+	deepR := tshape{kids: []tshape{tA, tX2}}
+	add(tX2, tA)
+	add(tX2, tX2)
+	add(tC, tA)
+	add(tX3, tA, tA)
+	add(tX2, tA, tA)
+	add(deepL, tA)
+	add(deepR, tA)
+	if tier == "thorough" {
+		six := []tshape{tA, tX2, tX3, tC, deepL, deepR}
+		for _, a := range six {
+			for _, b := range six {
+				add(a, b)
+			}
+		}
+		four := []tshape{tA, tX2, tX3, tC}
+		for _, a := range four {
+			for _, b := range four {
+				for _, c := range four {
+					add(a, b, c)
+				}
+			}
+		}
+	}
+	return out
+}
+
 func (prop) Generate(r *core.RNG, tier string) []json.RawMessage {
 	var out []json.RawMessage
 	for _, c := range corner() {
 		out = append(out, enc(c))
+	}
+	// trees of by-value struct dependencies, only the root tagged: the fixed shapes in every field order, then random
+	// trees of fan-out 2-3 and depth 2-3 (a fifth of them with further tags)
+	for _, t := range treeShapes(tier) {
+		out = append(out, enc(treeInput(r.Fork(), t, r.Uint64()%1000000, 0)))
+	}
+	nt := 8
+	if tier == "thorough" {
+		nt = 80
+	}
+	for i := 0; i < nt; i++ {
+		budget := 14
+		t := randomTree(r, 2+r.Intn(2), &budget)
+		tagPct := 0
+		if i%5 == 4 {
+			tagPct = 25
+		}
+		out = append(out, enc(treeInput(r.Fork(), t, r.Uint64()%1000000, tagPct)))
 	}
 	n := 22
 	if tier == "thorough" {
